@@ -1,0 +1,63 @@
+// Copyright 2024 Kelvin Clement Mwinuka
+//
+// Licensed under the Apache License, Version 2.0 (the "License");
+// you may not use this file except in compliance with the License.
+// You may obtain a copy of the License at
+//
+//      http://www.apache.org/licenses/LICENSE-2.0
+//
+// Unless required by applicable law or agreed to in writing, software
+// distributed under the License is distributed on an "AS IS" BASIS,
+// WITHOUT WARRANTIES OR CONDITIONS OF ANY KIND, either express or implied.
+// See the License for the specific language governing permissions and
+// limitations under the License.
+
+package pubsub
+
+import (
+	"log"
+	"net"
+	"sync"
+
+	"github.com/tidwall/resp"
+)
+
+// outbox is the ordered delivery queue of one subscribed connection. Everything the pubsub module
+// sends to a connection on its own (subscription confirmations and published messages) is queued
+// here and written by a single goroutine, so a connection receives it in the order it was queued.
+// The queue is unbounded: a publisher never waits for a subscriber. A connection keeps its queue when
+// it unsubscribes from everything, so that what it receives after subscribing again stays in order.
+type outbox struct {
+	mut   sync.Mutex
+	cond  *sync.Cond
+	queue [][]resp.Value
+}
+
+func newOutbox(conn *net.Conn) *outbox {
+	o := &outbox{}
+	o.cond = sync.NewCond(&o.mut)
+	w := resp.NewConn(*conn)
+	go func() {
+		for {
+			o.mut.Lock()
+			for len(o.queue) == 0 {
+				o.cond.Wait()
+			}
+			frame := o.queue[0]
+			o.queue = o.queue[1:]
+			o.mut.Unlock()
+			if err := w.WriteArray(frame); err != nil {
+				log.Println(err)
+			}
+		}
+	}()
+	return o
+}
+
+// push queues one frame for the connection.
+func (o *outbox) push(frame []resp.Value) {
+	o.mut.Lock()
+	o.queue = append(o.queue, frame)
+	o.mut.Unlock()
+	o.cond.Signal()
+}
